@@ -234,3 +234,18 @@ CLAIMS["C03"] = dict(
 )
 
 NOT_APPLICABLE = {}
+
+# Descriptions written against the rule files as they are now (data/claims/Cxx.json: technique, text, note) replace the
+# texts above where present; the level category stays as declared above.
+import json as _json
+import os as _os
+_D = _os.path.join(_os.path.dirname(_os.path.dirname(_os.path.abspath(__file__))), "data", "claims")
+for _pid in list(CLAIMS):
+    _f = _os.path.join(_D, _pid + ".json")
+    if _os.path.exists(_f):
+        _j = _json.load(open(_f))
+        for _k in ("technique", "text", "note"):
+            if _j.get(_k):
+                CLAIMS[_pid][_k] = " ".join(_j[_k].split())
+        if _j.get("engines"):
+            CLAIMS[_pid]["engines"] = _j["engines"]
